@@ -43,7 +43,9 @@ def deviations(chk):
         # design-level observations: configurations that are EXPECTED to violate an invariant of the model although
         # the library satisfies every listed property (documented in DESIGN.md 14.9)
         for tla, cfg, inv, what in [("MC_Link.tla", "MC_Link_reassign.cfg", "EidAgreement",
-                                     "a late duplicate of an earlier Set Endpoint ID undoes a later Force (no replay protection)")]:
+                                     "a late duplicate of an earlier Set Endpoint ID undoes a later Force (no replay protection)"),
+                                    ("MC_Bus2.tla", "MC_Bus2_nodst.cfg", "NoCrossAct",
+                                     "hypothetical design whose PEC leaves out the destination-address byte: a re-routed request is acted upon by the wrong endpoint")]:
             md = os.path.join(w, "md-obs")
             rc, out = chk.java(["-workers", "4", "-metadir", md, "-cleanup", "-noGenerateSpecTE", "-config", cfg, tla],
                                w, timeout=900, xmx="4g", serial=False)
